@@ -584,6 +584,192 @@ impl C16 {
     }
 }
 
+/// a seekable source whose bytes at positions >= `bad_from` cannot be delivered: reads that reach
+/// them fail (injected error) or hit the end of the data (`eof`); seeking itself never fails, as
+/// with `std::io::Cursor` and files
+struct PosFailingReader<'a> {
+    data: &'a [u8],
+    pos: u64,
+    bad_from: usize,
+    eof: bool,
+}
+
+impl<'a> Read for PosFailingReader<'a> {
+    fn read(&mut self, buf: &mut [u8]) -> std::io::Result<usize> {
+        if buf.is_empty() {
+            return Ok(0);
+        }
+        let end = self.bad_from.min(self.data.len());
+        let p = self.pos.min(usize::MAX as u64) as usize;
+        if p >= end {
+            if self.eof || p >= self.data.len() && self.bad_from >= self.data.len() {
+                return Ok(0);
+            }
+            return Err(std::io::Error::new(std::io::ErrorKind::ConnectionReset, INJECTED));
+        }
+        let n = buf.len().min(end - p);
+        buf[..n].copy_from_slice(&self.data[p..p + n]);
+        self.pos += n as u64;
+        Ok(n)
+    }
+}
+impl<'a> Seek for PosFailingReader<'a> {
+    fn seek(&mut self, pos: SeekFrom) -> std::io::Result<u64> {
+        let np = match pos {
+            SeekFrom::Start(p) => p as i128,
+            SeekFrom::Current(d) => self.pos as i128 + d as i128,
+            SeekFrom::End(d) => self.data.len() as i128 + d as i128,
+        };
+        if np < 0 {
+            return Err(std::io::Error::new(std::io::ErrorKind::InvalidInput, "seek before start"));
+        }
+        self.pos = np as u64;
+        Ok(self.pos)
+    }
+}
+
+/// reference for the "skip" walkers (RFC 8200 §4, RFC 4302 §2.2): length of the extension header
+/// announced by number `n` at the start of `b`, None if the number has no skippable layout
+fn skippable_len(n: u8, b: &[u8]) -> Option<Option<usize>> {
+    match n {
+        44 => Some(Some(8)),
+        51 => Some(b.get(1).map(|l| (*l as usize + 2) * 4)),
+        0 | 43 | 60 | 135 | 139 | 140 => Some(b.get(1).map(|l| (*l as usize + 1) * 8)),
+        _ => None,
+    }
+}
+
+impl C16 {
+    /// `Ipv6Header::skip_header_extension` / `skip_all_header_extensions` over sources that end or
+    /// fail at every position of the chain
+    fn skip(&mut self, rep: &mut Report, rng: &mut Prng) {
+        use etherparse::{IpNumber, Ipv6Header};
+        let t = HEADERS.iter().find(|t| t.name == "Ipv6Extensions").unwrap();
+        let all = (t.gen)(rng);
+        if all.is_empty() {
+            return;
+        }
+        let first = if rng.chance(1, 6) { *rng.pick(&[135u8, 139, 140, 50, 253, 17]) } else { all[0] };
+        let data = &all[1..];
+        // reference walk over the complete data
+        let one = skippable_len(first, data);
+        let mut chain: Vec<(u8, usize, usize)> = Vec::new(); // (number, offset, len)
+        {
+            let mut n = first;
+            let mut off = 0usize;
+            while let Some(l) = skippable_len(n, &data[off.min(data.len())..]) {
+                match l {
+                    Some(l) if off + l <= data.len() => {
+                        chain.push((n, off, l));
+                        n = data[off];
+                        off += l;
+                    }
+                    _ => {
+                        chain.push((n, off, usize::MAX));
+                        break;
+                    }
+                }
+                if chain.len() > 300 {
+                    break;
+                }
+            }
+        }
+        let limit = data.len().min(96);
+        for k in 0..=limit + 1 {
+            for eof in [false, true] {
+                rep.evals += 1;
+                shell::progress_entry(1690);
+                let bad_from = if k > limit { usize::MAX } else { k };
+                // (a) single step
+                let res = shell::guarded(|| {
+                    let mut r = PosFailingReader { data, pos: 0, bad_from, eof };
+                    Ipv6Header::skip_header_extension(&mut r, IpNumber(first)).map(|n| (n.0, r.pos)).map_err(|e| format!("{:?}", e.kind()))
+                });
+                let avail = bad_from.min(data.len());
+                let want: Result<(u8, u64), ()> = match one {
+                    None => Ok((first, 0)),
+                    Some(l) => {
+                        let l = if avail >= 2 || (first == 44 && avail >= 1) { l.or(if first == 44 { Some(8) } else { None }) } else { None };
+                        match l {
+                            Some(l) if l <= avail => Ok((data[0], l as u64)),
+                            _ => Err(()),
+                        }
+                    }
+                };
+                match res {
+                    Ok(got) => {
+                        let ok = match (&got, &want) {
+                            (Ok(g), Ok(w)) => g == w,
+                            (Err(_), Err(())) => true,
+                            _ => false,
+                        };
+                        if ok {
+                            rep.count(if want.is_ok() { "skip.step_ok" } else { "skip.step_fault_surfaced" });
+                        } else {
+                            rep.violation(
+                                &format!("skip_header_extension|{}|{}", if want.is_ok() { "spurious_error_or_wrong_position" } else { "fault_not_surfaced" }, if eof { "eof" } else { "error" }),
+                                format!(
+                                    "Ipv6Header::skip_header_extension(number {}) over {} readable bytes of {}: {:?}, expected {:?}",
+                                    first, avail, hex(&data[..data.len().min(48)]), got, want
+                                ),
+                                &all,
+                            );
+                            return;
+                        }
+                    }
+                    Err(p) => {
+                        rep.violation(&format!("panic|Ipv6Header::skip_header_extension|{}", p.location()), p.0, &all);
+                        return;
+                    }
+                }
+                // (b) the whole chain
+                let res = shell::guarded(|| {
+                    let mut r = PosFailingReader { data, pos: 0, bad_from, eof };
+                    Ipv6Header::skip_all_header_extensions(&mut r, IpNumber(first)).map(|n| (n.0, r.pos)).map_err(|e| format!("{:?}", e.kind()))
+                });
+                let want_all: Result<(u8, u64), ()> = {
+                    let mut w = Ok((first, 0u64));
+                    for (_, off, l) in &chain {
+                        if *l == usize::MAX || off + l > avail {
+                            w = Err(());
+                            break;
+                        }
+                        w = Ok((data[*off], (off + l) as u64));
+                    }
+                    w
+                };
+                match res {
+                    Ok(got) => {
+                        let ok = match (&got, &want_all) {
+                            (Ok(g), Ok(w)) => g == w,
+                            (Err(_), Err(())) => true,
+                            _ => false,
+                        };
+                        if ok {
+                            rep.count(if want_all.is_ok() { "skip.all_ok" } else { "skip.all_fault_surfaced" });
+                        } else {
+                            rep.violation(
+                                &format!("skip_all_header_extensions|{}|{}", if want_all.is_ok() { "spurious_error_or_wrong_position" } else { "fault_not_surfaced" }, if eof { "eof" } else { "error" }),
+                                format!(
+                                    "Ipv6Header::skip_all_header_extensions(number {}) over {} readable bytes of {}: {:?}, expected {:?} (chain {:?})",
+                                    first, avail, hex(&data[..data.len().min(48)]), got, want_all, chain
+                                ),
+                                &all,
+                            );
+                            return;
+                        }
+                    }
+                    Err(p) => {
+                        rep.violation(&format!("panic|Ipv6Header::skip_all_header_extensions|{}", p.location()), p.0, &all);
+                        return;
+                    }
+                }
+            }
+        }
+        rep.sig(&format!("skip|{}|{}", chain.len().min(6), chain.last().map(|c| c.2 == usize::MAX).unwrap_or(false)));
+    }
+}
+
 impl Monitor for C16 {
     fn engines(&self, tier: Tier) -> Vec<(&'static str, u64)> {
         vec![
@@ -591,6 +777,7 @@ impl Monitor for C16 {
             ("readers", tier.pick(600_000, 7_000_000)),
             ("limited", tier.pick(200_000, 2_500_000)),
             ("builder", tier.pick(80_000, 1_000_000)),
+            ("skip", tier.pick(60_000, 800_000)),
         ]
     }
 
@@ -600,6 +787,7 @@ impl Monitor for C16 {
             "readers" => self.readers(rep, rng),
             "limited" => self.limited(rep, rng),
             "builder" => self.builder(rep, rng),
+            "skip" => self.skip(rep, rng),
             _ => {}
         }
     }
